@@ -23,6 +23,8 @@ OBLIGATIONS = [
     "SkVerif.C07.rows_eq_splits",
     "SkVerif.C07.row_eq_honest_fold_refit",
     "SkVerif.C07.row_eq_honest_fold_update",
+    "SkVerif.C07.history_is_first_splits",
+    "SkVerif.C07.row_eq_honest_fold_refit_each",
     "SkVerif.C07.score_arg_order_partial",
     "SkVerif.C07.score_arg_order_fails",
     "SkVerif.C07.cutoff_and_len_columns",
@@ -30,7 +32,7 @@ OBLIGATIONS = [
     "SkVerif.C07.return_data_columns",
     "SkVerif.C07.trace_eq_honest_calls",
     "SkVerif.C07.no_future_in_trace",
-    "SkVerif.C07.no_future_in_trace_window",
+    "SkVerif.C07.xtest_rows_are_steps_after_cutoff",
     "SkVerif.C07.folds_ordered_window",
     "SkVerif.C07.folds_ordered_single",
     "SkVerif.C07.folds_ordered_cutoff",
